@@ -8,6 +8,7 @@
 -/
 import LccModel.Model.SuiteObject
 import LccModel.Model.Hooks
+import LccModel.Model.PreRun
 import LccModel.Generated.C03Tables
 
 namespace LccModel.Generated.C03
@@ -36,5 +37,12 @@ open LccModel.Hooks in
 /-- … and `Shape.all` / `Place.all` list every constructor -/
 theorem shapes_places_exhaustive : (∀ s : Shape, s ∈ Shape.all) ∧ (∀ p : Place, p ∈ Place.all) :=
   ⟨fun s => by cases s <;> decide, fun p => by cases p <;> decide⟩
+
+/-! ### `run_suites`' own loops over the `pre_run` fixtures (harness/props/_prerun_table.py): the REAL `run_suites` executed on a
+    chain of 1..3 pre_run fixtures x every placement of a failing setup x generator / plain x a failing teardown x a session
+    that raises; what was seen (user code entered and how it ended, session run or not, how the call ended) equals
+    `PreRun.runSuites` (theorems: `Props/C03PreRun.lean`) -/
+theorem pre_run_table_agrees : ∀ r ∈ preRunTable,
+    LccModel.PreRun.render (LccModel.PreRun.runSuites (r.1.1.map fun x => ⟨x.1, x.2.1, x.2.2.1, x.2.2.2⟩) r.1.2) = r.2 := by decide +kernel
 
 end LccModel.Generated.C03
